@@ -691,6 +691,7 @@ var (
 	objBound   map[string]int
 	allocEpoch map[string]int
 	memEpoch   map[string]int // memory version name -> epoch in which it was created
+	memAllocOf map[string]*Term // memory version name -> allocation counter of a state in which it was the current memory
 	curEpoch   int
 )
 
@@ -706,6 +707,20 @@ func boundFromCell(c *Term) (int, bool) {
 		}
 	}
 	return 0, false
+}
+
+// allocOfCell: the allocation counter that bounds a reference read from cell term c, if the
+// memory version it was read from is known to have been current with that counter.
+func allocOfCell(c *Term) *Term {
+	if memAllocOf == nil {
+		return nil
+	}
+	if c.Op == "select" && len(c.Args) == 2 && c.Args[0].Op == "select" {
+		if m := c.Args[0].Args[0]; m.Op == "sym" {
+			return memAllocOf[m.Name]
+		}
+	}
+	return nil
 }
 
 func noteObjBound(t *Term) {
